@@ -153,7 +153,20 @@ def run_inst(ctx, cfgs):
 # =========================================================================================
 def case_key(rec):
     i = rec["id"]
-    return json.dumps([i["slots"], i["bound"], i["targ"], i["narg"]], sort_keys=True)
+    return json.dumps([i["slots"], i["bound"], i["targ"], i["narg"], i.get("eq", False)], sort_keys=True)
+
+
+def equal_mono_before_open(rec) -> bool:
+    """foo or mid keeps a parameter generic after >= 2 monomorphised parameters that were
+    given EQUAL arguments (parameters must be counted by position, not by value)."""
+    for f in ("foo", "mid"):
+        mono = rec[f]["mono"]
+        for i, a in enumerate(mono):
+            if a == ["-"]:
+                before = [json.dumps(x) for x in mono[:i] if x != ["-"]]
+                if len(before) != len(set(before)):
+                    return True
+    return False
 
 
 def variant_jobs(recs):
@@ -249,7 +262,7 @@ def run(ctx):
                         ["TypeAlg_Inst_thoroughA.cfg", "TypeAlg_Inst_thoroughB.cfg"])
     istats, isamples = run_inst(ctx, cfgs)
     # ---- (b)
-    mstats = {"programs": 0, "cases": 0, "partial_cases": 0}
+    mstats = {"programs": 0, "cases": 0, "partial_cases": 0, "equal_args_cases": 0}
     recs = []
     if tiny:
         recs = mono_records(ctx, "TypeAlg_Mono_mc2.cfg")
@@ -260,20 +273,28 @@ def run(ctx):
         # (simulation, seeded) from the <= 3 slot family
         recs = mono_records(ctx, "TypeAlg_Mono.cfg", simulate=30, seed=ctx.seed)
         rng.shuffle(recs)
-        recs = recs[:80]
+        recs = recs[:60]
+        # plus equal-argument cases (exhaustively model-checked): distinct parameters, same value
+        eqs = mono_records(ctx, "TypeAlg_Mono_eq.cfg")
+        rng.shuffle(eqs)
+        hit = [r for r in eqs if equal_mono_before_open(r)]
+        recs += hit[:24] + [r for r in eqs if not equal_mono_before_open(r)][:8]
     else:
         full = mono_records(ctx, "TypeAlg_Mono.cfg")  # exhaustive, <= 3 slots
         small = [r for r in full if len(r["id"]["slots"]) <= 2]
         big = [r for r in full if len(r["id"]["slots"]) > 2]
         rng.shuffle(big)
-        recs = small + big[:1200]
+        hit = [r for r in big if equal_mono_before_open(r)]
+        recs = small + hit + [r for r in big if not equal_mono_before_open(r)][:1100]
     mstats["cases"] = len(recs)
     mstats["partial_cases"] = sum(
         1 for r in recs if any(a != ["-"] for a in r["foo"]["mono"]) and any(a == ["-"] for a in r["foo"]["mono"]))
-    ctx.log(f"(b) {len(recs)} cases ({mstats['partial_cases']} partially monomorphised)")
+    mstats["equal_args_cases"] = sum(1 for r in recs if equal_mono_before_open(r))
+    ctx.log(f"(b) {len(recs)} cases ({mstats['partial_cases']} partially monomorphised, "
+            f"{mstats['equal_args_cases']} with equal monomorphised arguments before a generic parameter)")
     jobs = run_mono(ctx, recs, mstats)
-    if mstats["partial_cases"] == 0 and not tiny:
-        raise lib.Machinery("vacuous: no partially monomorphised case in the sample")
+    if (mstats["partial_cases"] == 0 or mstats["equal_args_cases"] == 0) and not tiny:
+        raise lib.Machinery(f"vacuous sample: {mstats}")
     ctx.coverage.update({
         "traces_validated_against_impl": istats["one"] + istats["two"] + mstats["programs"],
         "evaluations": istats["one"] + istats["two"] + mstats["programs"],
@@ -285,7 +306,8 @@ def run(ctx):
                                     "expected": r["expected"]} for r in recs[:2]],
         "exhaustive": not ctx.quick,
         "instantiate_partial": istats,
-        "programs": mstats,
+        "programs": mstats["programs"],
+        "programs_detail": mstats,
         # NOTE recorded, not reported: ConstParam.with_idx() builds ConstParam(idx, name, ty) and so loses
         # from_comptime_arg on every kept @comptime parameter; and kept BoundConstVar occurrences keep the
         # *uninstantiated* type of their binder. Neither is observable through compilation (comptime_args are
